@@ -484,7 +484,12 @@ def task_rls_module():
                                 ok_ret = False
         ctx.check(name + '.visit_Module/body-is-only-written-on-the-way-out-of-a-loop', ok_ret, kind='inv.step')
         walked = sym_node_list(ctx, 'walked', set(tag_universe()['names']))
-        interp.natives[compat.walk] = lambda it, a, k: walked
+        walk_calls = []
+
+        def walk_native(it, a, k):
+            walk_calls.append(a[0])
+            return walked
+        interp.natives[compat.walk] = walk_native
         bindings = ctx.new_obj('list', name='bindings')
         bd = ctx.data(bindings)
         bd.items = {}
@@ -510,13 +515,19 @@ def task_rls_module():
         body1 = rd.fields['body']
         # was a use of the name __doc__ seen on this path?
         uses = []
-        for k, e in ctx.data(walked).items.items():
-            if isinstance(e, Obj) and 'id' in ctx.data(e).fields:
-                uses.append(z3.And(ctx.data(e).tagvar == tag_const('Name'), ctx.data(e).fields['id'] == z3.StringVal('__doc__')))
+        for k, e in list(ctx.data(walked).items.items()):
+            if isinstance(e, Obj) and 'Name' in ctx.data(e).tags and ctx.branch(ctx.data(e).tagvar == tag_const('Name')):
+                interp.narrow(e, {'Name'})
+                uses.append(interp.getattr(e, 'id') == z3.StringVal('__doc__'))
         seen_doc = z3.Or(uses) if uses else z3.BoolVal(False)
+        examined = walk_calls == [root]
         if suites:
-            ctx.check(name + '.visit_Module/literals-removed-only-when-no-use-of-__doc__-was-found', z3.Not(seen_doc), kind='post',
-                      detail='the module body was filtered although a Name __doc__ occurs in the module')
+            # universal statement over ast.walk(module): it holds for the arbitrary element of the (generic) walk loop; without such an
+            # element on the path nothing was examined and the statement is not established
+            ctx.check(name + '.visit_Module/literals-removed-only-when-no-use-of-__doc__-was-found', z3.Not(seen_doc) if examined else False, kind='post',
+                      detail='the module body was filtered although a Name __doc__ occurs in the module' if examined else
+                      '[needs-witness] the module body was filtered without examining the nodes of the module for a Name __doc__ (names are not bound yet when this '
+                      'transform runs, so node.bindings is empty)')
             ctx.check(name + '.visit_Module/module-body-goes-through-suite', suites == [(body0, root)] and body1 == Opaque('suite_result', sort='list'),
                       kind='post', detail=repr(suites))
         else:
@@ -989,8 +1000,7 @@ def task_annotations():
         for f in ('remove_variable_annotations', 'remove_return_annotations', 'remove_argument_annotations', 'remove_class_attribute_annotations'):
             flags[f] = z3.Bool('opt_' + f)
             ctx.data(opts).fields[f] = flags[f]
-        o = ctx.new_obj('inst', mod.RemoveAnnotations, name='self')
-        ctx.data(o).fields['_options'] = opts
+        o = interp.instantiate(mod.RemoveAnnotations, [opts], {})      # the real constructor runs
         return o, flags
 
     def run_arg(ctx):
@@ -1058,38 +1068,52 @@ def task_annotations():
         changed = not (r == root and rd.fields['annotation'] == ann0)
         # did this path see a protecting decorator / base?  (arbitrary element of the respective list)
         protect = []
-        if pd is not None:
+        unexamined = []
+        if pd is not None and changed and ctx.branch(in_class):
+            interp.narrow(parent, {'ClassDef'})
             for fld, names, attr in (('decorator_list', ('dataclass',), True), ('bases', ('NamedTuple', 'TypedDict'), False)):
-                lst = pd.fields.get(fld)
-                if not isinstance(lst, Obj):
+                lst = interp.getattr(parent, fld)
+                ld = ctx.data(lst)
+                if ld.symlen is not None and ctx.solver.check(ld.symlen > 0) == z3.unsat:
+                    continue        # the list is empty on this path: nothing can protect
+                # the universal statement "no element protects" is established for the arbitrary element of a loop over the list
+                if not any(isinstance(k, tuple) and k and k[0] == 'g' for k in ld.items):
+                    unexamined.append(fld)
                     continue
-                for k, e in ctx.data(lst).items.items():
+
+                def named(e, n):
+                    ed = ctx.data(e)
+                    if 'Name' in ed.tags and ctx.branch(ed.tagvar == tag_const('Name')):
+                        interp.narrow(e, {'Name'})
+                        v = interp.getattr(e, 'id')
+                        return z3.Or([v == z3.StringVal(x) for x in n])
+                    if 'Attribute' in ed.tags and ctx.branch(ed.tagvar == tag_const('Attribute')):
+                        interp.narrow(e, {'Attribute'})
+                        v = interp.getattr(e, 'attr')
+                        return z3.Or([v == z3.StringVal(x) for x in n])
+                    return None
+                for k, e in list(ld.items.items()):
                     if not isinstance(e, Obj):
                         continue
+                    c = named(e, names)
+                    if c is not None:
+                        protect.append(c)
+                        continue
                     ed = ctx.data(e)
-
-                    def named(n, ed=ed, e=e):
-                        out = []
-                        if 'id' in ed.fields:
-                            out.append(z3.And(ed.tagvar == tag_const('Name'), z3.Or([ed.fields['id'] == z3.StringVal(x) for x in n])))
-                        if 'attr' in ed.fields:
-                            out.append(z3.And(ed.tagvar == tag_const('Attribute'), z3.Or([ed.fields['attr'] == z3.StringVal(x) for x in n])))
-                        return out
-                    protect += named(names)
-                    fn = ed.fields.get('func')
-                    if attr and isinstance(fn, Obj):
-                        fd = ctx.data(fn)
-                        if 'id' in fd.fields:
-                            protect.append(z3.And(ed.tagvar == tag_const('Call'), fd.tagvar == tag_const('Name'), fd.fields['id'] == z3.StringVal('dataclass')))
-                        if 'attr' in fd.fields:
-                            protect.append(z3.And(ed.tagvar == tag_const('Call'), fd.tagvar == tag_const('Attribute'), fd.fields['attr'] == z3.StringVal('dataclass')))
-        protected = z3.And(in_class, z3.Or(protect)) if protect else z3.BoolVal(False)
+                    if attr and 'Call' in ed.tags and ctx.branch(ed.tagvar == tag_const('Call')):
+                        interp.narrow(e, {'Call'})
+                        c = named(interp.getattr(e, 'func'), names)
+                        if c is not None:
+                            protect.append(c)
+        protected = z3.Or(protect) if protect else z3.BoolVal(False)
         if not changed:
             ctx.check(name + '.visit_AnnAssign/cover-unchanged', True, kind='cover')
             return
         ctx.check(name + '.visit_AnnAssign/rewrites-only-the-selected-kind-of-annotation', selected, kind='post',
                   detail='class attributes follow remove_class_attribute_annotations, other variables remove_variable_annotations')
-        ctx.check(name + '.visit_AnnAssign/never-rewrites-a-dataclass-NamedTuple-or-TypedDict-field', z3.Not(protected), kind='post')
+        ctx.check(name + '.visit_AnnAssign/never-rewrites-a-dataclass-NamedTuple-or-TypedDict-field', z3.Not(protected) if not unexamined else False, kind='post',
+                  detail=('[needs-witness] a class attribute annotation was rewritten without examining the %s of the class' % ' and '.join(unexamined)) if unexamined else
+                  'an element of decorator_list / bases marks the class as dataclass / NamedTuple / TypedDict')
         if r != root:
             d = ctx.data(r) if isinstance(r, Obj) else None
             ok = d is not None and d.tags == {'Assign'} and isinstance(d.fields.get('targets'), Obj) and ctx.data(d.fields['targets']).items == [tgt0] \
